@@ -108,7 +108,7 @@ def run(c):
     c.r2("ut-version", UH, cond=r"^consensus::valid_header_version\(.*\.height, .*\.version\)$", fail_on=False, err="InvalidBlockVersion")
     c.r2("ut-edge-bits", UH, cond=r"^ProofOfWork::is_secondary\(", fail_on=False, err="CorruptedData", bypass=[(r"^ProofOfWork::is_primary\(", "true")])
     c.r1("ut-pow", UH, "grin_core::pow::verify_size", via=0)
-    c.r2("ut-weight", UH, ops={"Gt"}, lhs=["call:TransactionBody::weight_by_iok"], rhs=["call:global::max_block_weight"], err="CorruptedData")
+    c.r2("ut-weight", UH, ops={"Gt"}, lhs=["call:TransactionBody::weight_by_iok"], rhs=["call:global::max_block_weight", "op:MulWithOverflow", "op:AddWithOverflow"], err="CorruptedData")
     # --- retarget funnels
     c.r2_ret("dma-min", CO + "next_dma_difficulty", must=["call:cmp::max", "re:^item:consensus::MIN_DMA_DIFFICULTY=", "call:consensus::clamp", "call:consensus::damp"])
     c.r2_ret("wtema-min", CO + "next_wtema_difficulty", must=["call:cmp::max", "call:Difficulty::min_wtema"])
